@@ -267,26 +267,47 @@ def run(ctx):
             ctx.oblige("C13|skip|only-inner-error", good_try, "skip_if_too_long has error exits other than decoding the text itself", cfg=cfg, where=fn["sp"])
             kept = dropped = None
             others = []
-            for s in A.sites:
-                mc = [c for c in s.conds if c.kind == "match"]
-                sc = H.strip_block(A.subst(mc[0].scrut)) if len(mc) == 1 and len(s.conds) == 1 else {}
-                conv = H.conversion_impl(sc) if sc else None
-                from_text = sc and good_try and H.local_id(H.call_args(sc)[0]) is not None and A.subst(H.call_args(sc)[0]) is not None
+            CONV = "<heapless::string::String<L> as core::convert::TryFrom<&str>>"
+            PUSH = "heapless::string::String::<N>::push_str"
+            fits_test = None   # the expression whose Ok/Err decides fit vs too long
+            for s_ in A.sites:
+                mc = [c for c in s_.conds if c.kind == "match"]
+                sc = H.strip_block(A.subst(mc[0].scrut)) if len(mc) == 1 and len(s_.conds) == 1 else {}
                 pc = H.pat_ctor(mc[0].pat) if mc else None
-                if conv == "<heapless::string::String<L> as core::convert::TryFrom<&str>>" and pc == "core::result::Result::Ok" and s.wrappers == [OK, SOME] and s.node is not None and H.local_id(s.node) in [i for _, i in H.pat_bindings(mc[0].pat)]:
-                    kept = s
-                elif conv == "<heapless::string::String<L> as core::convert::TryFrom<&str>>" and (pc == "core::result::Result::Err" or H.pat_is_catchall(mc[0].pat)) and s.wrappers == [OK] and H.ctor(H.strip_block(s.node)) == "core::option::Option::None":
-                    dropped = s
+                form = None
+                fresh_id = None
+                if sc and H.conversion_impl(sc) == CONV:
+                    form = "try_from"
+                elif sc.get("k") == "mcall" and sc.get("callee") == PUSH:
+                    # fresh String<L> filled by exactly one push_str of the decoded text
+                    fresh_id = H.local_id(sc["recv"])
+                    init = A.env.get(fresh_id)
+                    pushes = [x for x in H.walk(fn["body"]) if x.get("k") == "mcall" and H.local_id(x.get("recv", {})) == fresh_id]
+                    if init is not None and H.strip_block(init).get("callee") == "heapless::string::String::<N>::new" and (H.strip_block(init).get("targs") or [""]) == ["L"] and len(pushes) == 1:
+                        form = "push_str"
+                if form and pc == "core::result::Result::Ok" and s_.wrappers == [OK, SOME] and s_.node is not None and \
+                        ((form == "try_from" and H.local_id(s_.node) in [i for _, i in H.pat_bindings(mc[0].pat)]) or (form == "push_str" and H.local_id(s_.node) == fresh_id)):
+                    kept = s_
+                    fits_test = sc
+                elif form and (pc == "core::result::Result::Err" or H.pat_is_catchall(mc[0].pat)) and s_.wrappers == [OK] and H.ctor(H.strip_block(s_.node)) == "core::option::Option::None":
+                    dropped = s_
                 else:
-                    others.append(s)
-            ctx.oblige("C13|skip|keeps-when-fits", kept is not None, "an icon that fits is not returned verbatim as Some(String::try_from(text))", cfg=cfg, where=fn["sp"])
+                    others.append(s_)
+            # the conversion must be genuinely fallible: core's blanket `impl<T, U: Into<T>> TryFrom<U> for T` is infallible
+            # (Error = Infallible) and forwards to From::from, which for heapless 0.7 String *panics* when the text does not fit
+            convs = [x for x in H.walk(fn["body"]) if H.conversion_impl(x) == CONV]
+            blanket = [x for x in convs if x.get("resolved") == "<T as core::convert::TryFrom<U>>::try_from" or "core::convert::Infallible" in (x.get("ty") or "")]
+            ctx.oblige("C13|skip|fallible-conversion", not blanket,
+                       "`String::try_from(text)` resolves to core's infallible blanket TryFrom (error type Infallible) and therefore to heapless' panicking String::from(&str): "
+                       "an icon longer than the capacity panics instead of being dropped", cfg=cfg, where=H.line(blanket[0]) if blanket else fn["sp"])
+            ctx.oblige("C13|skip|keeps-when-fits", kept is not None, "an icon that fits is not returned verbatim as Some(<String<L> holding the decoded text>)", cfg=cfg, where=fn["sp"])
             ctx.oblige("C13|skip|drops-when-too-long", dropped is not None, "an over-long icon is not reported absent with Ok(None)", cfg=cfg, where=fn["sp"])
-            ctx.oblige("C13|skip|no-other-result", not others, "skip_if_too_long has other results: %s" % [A.site_str(s) for s in others], cfg=cfg, where=fn["sp"])
-            # the text converted is the text decoded
-            if kept is not None:
-                sc = H.strip_block(A.subst([c for c in kept.conds if c.kind == "match"][0].scrut))
-                arg = A.subst(H.call_args(sc)[0])
-                ctx.oblige("C13|skip|same-text", arg.get("k") == "try" and arg["e"] is A.tries[0].node if A.tries else False, "the converted text is not the decoded text", cfg=cfg, nontrivial=False)
+            ctx.oblige("C13|skip|no-other-result", not others, "skip_if_too_long has other results: %s" % [A.site_str(x) for x in others], cfg=cfg, where=fn["sp"])
+            # the text stored is the text decoded
+            if fits_test is not None:
+                args = H.call_args(fits_test)
+                arg = A.subst(args[-1])
+                ctx.oblige("C13|skip|same-text", arg.get("k") == "try" and bool(A.tries) and arg["e"] is A.tries[0].node, "the stored text is not the decoded text", cfg=cfg, nontrivial=False)
             ctx.sample({"cfg": cfg, "skip_if_too_long": [A.site_str(s) for s in A.sites]}, limit=3)
         # ---- truncate wrapper
         fn = F.fn(TRUNC_W)
